@@ -225,9 +225,9 @@ class C20(C.ProgramDiff):
                         else:
                             yp.register_function(r['name'], fn, arity=r['arity'])
                     elif r.get('positional_arity'):
-                        yp.register_function(r['name'], fn, -1)
+                        yp.register_function(r['name'], fn, H.variadic_arity(r['name'], r['arity']))
                     else:
-                        yp.register_function(r['name'], fn, arity=-1)
+                        yp.register_function(r['name'], fn, arity=H.variadic_arity(r['name'], r['arity']))
             before = set(map(id, impl.bound_variables()))
             boom = None
             expected_boom = BOOMS[raising[0].get('raise_class', 0) % len(BOOMS)] if raising else Boom
